@@ -562,6 +562,11 @@ func ruleLabelArity(w *World, r *Run, rule string) {
 				for _, ev := range calls(s, cNew) {
 					if len(ev.Args) == 3 && ev.Args[2].Kind == "varargs" {
 						arity[ev.Res.key] = len(ev.Args[2].Args)
+					} else if len(ev.Args) == 3 {
+						// no label names at all: the variadic parameter is a nil slice
+						if l, ok := knownLen(ev.Args[2]); ok {
+							arity[ev.Res.key] = l
+						}
 					}
 				}
 				// where each created counter ends up
